@@ -178,9 +178,26 @@ func (g *randomGen) genFile(idx, pkg int) {
 		}
 	}
 	if !proto2 && g.opts.Services && t.Chance("rs.service", 1, 4) && len(tops) > 0 {
-		svc := &descriptorpb.ServiceDescriptorProto{Name: proto.String(fmt.Sprintf("Svc%d", idx))}
-		svc.Method = append(svc.Method, &descriptorpb.MethodDescriptorProto{Name: proto.String("Call"), InputType: proto.String(tops[0].full), OutputType: proto.String(tops[len(tops)-1].full)})
-		fd.Service = append(fd.Service, svc)
+		nsvc := 1 + t.Draw("rs.nsvc", 2)
+		for si := 0; si < nsvc; si++ {
+			svc := &descriptorpb.ServiceDescriptorProto{Name: proto.String(fmt.Sprintf("Svc%d_%d", idx, si))}
+			nm := 1 + t.Draw("rs.nmethods", 4)
+			for mi := 0; mi < nm; mi++ {
+				in, _ := g.pickMsg(idx)
+				out, _ := g.pickMsg(idx)
+				m := &descriptorpb.MethodDescriptorProto{Name: proto.String(fmt.Sprintf("Call%d", mi)), InputType: proto.String(in), OutputType: proto.String(out)}
+				switch t.Draw("rs.streaming", 4) {
+				case 1:
+					m.ClientStreaming = proto.Bool(true)
+				case 2:
+					m.ServerStreaming = proto.Bool(true)
+				case 3:
+					m.ClientStreaming, m.ServerStreaming = proto.Bool(true), proto.Bool(true)
+				}
+				svc.Method = append(svc.Method, m)
+			}
+			fd.Service = append(fd.Service, svc)
+		}
 	}
 }
 
@@ -193,6 +210,11 @@ func (g *randomGen) genEnum(name string) *descriptorpb.EnumDescriptorProto {
 			num = -int32(i)
 		}
 		e.Value = append(e.Value, &descriptorpb.EnumValueDescriptorProto{Name: proto.String(fmt.Sprintf("%s_V%d", name, i)), Number: proto.Int32(num)})
+	}
+	if g.opts.Tag == "" && n > 1 && g.t.Chance("rs.enumalias", 1, 6) {
+		// an alias: a second name for an existing number
+		e.Options = &descriptorpb.EnumOptions{AllowAlias: proto.Bool(true)}
+		e.Value = append(e.Value, &descriptorpb.EnumValueDescriptorProto{Name: proto.String(name + "_ALIAS"), Number: e.Value[g.t.Draw("rs.aliasof", n)].Number})
 	}
 	return e
 }
@@ -254,6 +276,12 @@ func (g *randomGen) fillMsg(b *msgBuilder, file, depth int, proto2 bool) {
 		}
 	}
 	nf := 1 + t.Draw("rs.fields", 6)
+	var synth []*descriptorpb.FieldDescriptorProto
+	defer func() {
+		for _, f := range synth {
+			f.OneofIndex = proto.Int32(b.oneof("_" + f.GetName()))
+		}
+	}()
 	num := int32(1)
 	usedNames := map[string]bool{}
 	nextNum := func() int32 {
@@ -290,7 +318,14 @@ func (g *randomGen) fillMsg(b *msgBuilder, file, depth int, proto2 bool) {
 		switch t.Draw("rs.fkind", 8) {
 		case 0, 1: // scalar
 			s := scalarTypes[t.Draw("rs.scalar", len(scalarTypes))]
-			optional(b.scalar(name(i), nextNum(), s.t))
+			f := b.scalar(name(i), nextNum(), s.t)
+			optional(f)
+			if !proto2 && g.opts.Tag == "" && t.Chance("rs.proto3optional", 1, 12) {
+				// proto3 `optional`: a synthetic oneof holding just this field
+				// (synthetic oneofs must follow all real ones; added at the end)
+				f.Proto3Optional = proto.Bool(true)
+				synth = append(synth, f)
+			}
 		case 2: // repeated scalar
 			s := scalarTypes[t.Draw("rs.scalar", len(scalarTypes))]
 			f := b.repeated(name(i), nextNum(), s.t)
